@@ -358,7 +358,7 @@ def gen_module(rng):
             lines.append(f"{stack}class C{i}:\n    'cdoc'\n    z = {i}\n    def m(self, a):\n        LOG.append(('C{i}.m', a))\n        return a * self.z\n    @staticmethod\n    def s(a):\n        return a\n    @classmethod\n    def c(cls, a):\n        return (cls.__name__, a)")
             names.append(f"(C{i}().m(3), C{i}.s(4), C{i}.c(5))")
         elif kind == 2:
-            lines.append(f"if {rng.choice(['True', 'False', 'LOG is not None'])}:\n    def g{i}(x):\n        def inner(y):\n            return y + 1\n        return inner(x)\nelse:\n    def g{i}(x):\n        return -x")
+            lines.append(f"if {rng.choice(['True', 'False', 'LOG is not None', '__import__(\"typing\").TYPE_CHECKING'])}:\n    def g{i}(x):\n        def inner(y):\n            return y + 1\n        return inner(x)\nelse:\n    def g{i}(x):\n        return -x")
             names.append(f"g{i}(10)")
         elif kind == 3:
             lines.append(f"async def a{i}(x):\n    def helper(y):\n        return y * 2\n    return helper(x)")
@@ -380,6 +380,68 @@ def gen_module(rng):
             names.append(f"boom{i}(0)")
     lines.append("def main():\n    out = []\n" + "".join(f"    try:\n        out.append(repr({e}))\n    except Exception as e:\n        import traceback\n        out.append((type(e).__name__, [fr.lineno for fr in traceback.extract_tb(e.__traceback__) if fr.filename == __file__]))\n" for e in names) + "    return out, LOG")
     return "\n".join(lines) + "\n"
+
+
+FUTURE_MASK = 0
+for _f in __import__("__future__").all_feature_names:
+    FUTURE_MASK |= getattr(__import__("__future__"), _f).compiler_flag
+
+
+def future_flags(code, prefix=""):
+    """{qualified name: __future__ bits of co_flags} for a code object and everything nested in it"""
+    res = {prefix + code.co_name: code.co_flags & FUTURE_MASK}
+    for c in code.co_consts:
+        if isinstance(c, types.CodeType):
+            res.update(future_flags(c, prefix + code.co_name + "."))
+    return res
+
+
+def through_loader(source, path):
+    """the code object the REAL loader produces for this source (parse, transform, compile as the loader does it)"""
+    from jaxtyping._import_hook import Typechecker, _JaxtypingLoader
+
+    loader = _JaxtypingLoader("genmod", path, typechecker=TC)
+    return loader.source_to_code(source.encode(), path)
+
+
+ANNOTATED_MODULE = '''LOG = []
+def handler(event: int, scale: float = 1.0) -> str:
+    return str(event * scale)
+class Rec:
+    size: int
+    name: "str"
+    def get(self, k: int) -> "Rec":
+        return self
+REGISTRY = {handler.__annotations__["event"]: handler}
+def main():
+    return ([repr(v) for v in handler.__annotations__.values()], sorted((k, repr(v)) for k, v in Rec.__annotations__.items()),
+            [repr(v) for v in Rec.get.__annotations__.values()], REGISTRY[int](3), handler.__annotations__["event"] is int), LOG
+'''
+
+
+TYPE_CHECKING_MODULE = '''import typing
+from typing import TYPE_CHECKING
+LOG = []
+if TYPE_CHECKING:
+    def only_for_checkers(x):
+        return x
+else:
+    def scale(x):
+        return 2 * x
+    class Box:
+        def get(self, k):
+            return k
+if typing.TYPE_CHECKING:
+    pass
+elif LOG is not None:
+    def shift(x):
+        return x + 1
+if not TYPE_CHECKING:
+    def plain(x):
+        return x
+def main():
+    return (scale(1), Box().get(2), shift(3), plain(4)), LOG
+'''
 
 
 def execute(code, path):
@@ -410,7 +472,7 @@ def run(tier, seed, out, drv, facts):
     for i in range(n_gen + 1):
         # the first "generated" module is a fixed one with a definition in every kind of statement block
         # (if/elif/else, for/else, while/else, with, try/except/else/finally, except*, match cases, nested)
-        source = KITCHEN_SINK if i == 0 else gen_module(rng)
+        source = KITCHEN_SINK if i == 0 else ANNOTATED_MODULE if i == 1 else TYPE_CHECKING_MODULE if i == 2 else gen_module(rng)
         path = f"<generated {i}>"
         code = validate(out, drv, source, path, "generated")
         if code is None:
@@ -427,6 +489,27 @@ def run(tier, seed, out, drv, facts):
             continue
         if plain != hooked:
             out.violation("behaviour", f"a hooked module behaves differently from the plain one: {str(plain)[:300]} vs {str(hooked)[:300]}", {"source": source})
+        # the same module through the real loader: the compile step must not add or lose __future__ behaviour, and the
+        # module must behave as when it is compiled here from the transformed tree
+        if i % 10 == 0 or i < 3:
+            try:
+                lcode = through_loader(source, path)
+            except Exception as e:  # noqa: BLE001
+                out.violation(f"loader:{type(e).__name__}", f"the loader fails on a module that compiles plainly: {e!r}", {"source": source})
+                continue
+            pf = future_flags(compile(source, path, "exec", dont_inherit=True))
+            lf = future_flags(lcode)
+            bad = {k: (pf[k], lf.get(k)) for k in pf if lf.get(k) != pf[k]}
+            if bad:
+                out.violation("loader:future-flags", f"code compiled by the loader has other __future__ flags than the plain module: {dict(list(bad.items())[:3])}", {"source": source})
+            else:
+                try:
+                    via_loader = execute(lcode, path)
+                except Exception as e:  # noqa: BLE001
+                    out.violation(f"loader-execute:{type(e).__name__}", f"the module as compiled by the loader fails where the plain one runs: {e!r}", {"source": source})
+                    continue
+                if via_loader != plain:
+                    out.violation("loader:behaviour", f"the module as compiled by the loader behaves differently from the plain one: {str(plain)[:300]} vs {str(via_loader)[:300]}", {"source": source})
     _LAST.update({"programs": out.hist.get("programs", 0), "disagreements_checked": out.hist.get("programs", 0),
                   "definitions_transformed": out.hist.get("definitions", 0)})
 
